@@ -69,6 +69,7 @@ def strategy(tier: str):
             "old_age": st.sampled_from((0, 0, 899, 901, 3600, 86400 * 400)),
             "path_form": st.sampled_from(("absolute", "absolute", "bare", "dot", "subdir")),
             "file_name": st.sampled_from(FILE_NAMES),
+            "hardlink": st.sampled_from((False, False, True)),
         }
     )
 
@@ -99,6 +100,7 @@ def enumerate_cases(tier: str):
                         yield {"old": old, "new": new, "same": False, "second": False, "how": how, "old_layout": layout, "old_age": age}
                     for form in ("bare", "dot", "subdir"):
                         yield {"old": old, "new": new, "same": False, "second": False, "how": how, "old_layout": layout, "path_form": form}
+                    yield {"old": old, "new": new, "same": False, "second": how == "save", "how": how, "old_layout": layout, "hardlink": True}
                     if how in ("save", "context"):
                         for name in FILE_NAMES[2:]:
                             yield {"old": old, "new": new, "same": False, "second": how == "save", "how": how, "old_layout": layout, "file_name": name}
@@ -318,13 +320,20 @@ def _reset(scratch: str, path: str, old_bytes: bytes | None) -> None:
 
 def _dir_state(scratch: str) -> dict:
     state = {}
+    inodes: dict = {}
     for name in sorted(os.listdir(scratch)):
         full = os.path.join(scratch, name)
         if os.path.islink(full):
             state[name] = ("symlink", os.readlink(full))
         elif os.path.isfile(full):
+            info = os.stat(full)
+            if info.st_nlink > 1 and info.st_ino in inodes:
+                state[name] = ("hardlink", inodes[info.st_ino])  # another name of a file already listed
+                continue
+            inodes[info.st_ino] = name
             with open(full, "rb") as fil:
                 state[name] = fil.read()
+            state[name + "\0mode"] = info.st_mode & 0o777
     return state
 
 
@@ -336,16 +345,23 @@ def _restore(scratch: str, state: dict) -> None:
         else:
             os.unlink(full)
     for name, data in state.items():
+        if name.endswith("\0mode") or (isinstance(data, tuple) and data[0] == "hardlink"):
+            continue
         if isinstance(data, tuple):
             os.symlink(data[1], os.path.join(scratch, name))
             continue
         with open(os.path.join(scratch, name), "wb") as fil:
             fil.write(data)
+        if state.get(name + "\0mode") is not None:
+            os.chmod(os.path.join(scratch, name), state[name + "\0mode"])
         if AGE[0]:
             import time
 
             old = time.time() - AGE[0]
             os.utime(os.path.join(scratch, name), (old, old))  # the previous save happened that long ago
+    for name, data in state.items():
+        if isinstance(data, tuple) and data[0] == "hardlink":
+            os.link(os.path.join(scratch, data[1]), os.path.join(scratch, name))  # (a snapshot made with cp -l / rsnapshot)
 
 
 def _sweep(scratch: str, path: str, start: dict, saving: dict, allowed: list, new_bytes: bytes, known: dict, only=None, label: str = ""):
@@ -401,6 +417,9 @@ def _sweep(scratch: str, path: str, start: dict, saving: dict, allowed: list, ne
             with open(path, "rb") as fil:
                 on_disk = fil.read()
         status, loaded = env.run(c13._load(path))
+        if on_disk is not None and not os.stat(path).st_mode & 0o400:
+            # (this harness may run as root, who reads anything: for the process that owns the file, open() fails with EACCES)
+            status, loaded = "liberr", "the owner's read permission is gone from the file (mode %o): an ordinary process cannot open it" % (os.stat(path).st_mode & 0o777)
         if status == "ok" and any(loaded == snap for snap in allowed):
             survivors.append((_dir_state(scratch), loaded))
             continue
@@ -477,6 +496,10 @@ def run_case(case: dict) -> Outcome:
                 old_snap = loaded_old
             # everything the library's own completed save left in the directory (not just the registry file)
             start = {os.path.basename(path): old_bytes} if legacy_written else native_state
+            if case.get("hardlink") and not legacy_written:
+                # the old file has a second name (a hard-link snapshot of the data directory)
+                start = dict(start)
+                start["snapshot-of-" + os.path.basename(path)] = ("hardlink", os.path.basename(path))
             if case.get("link"):
                 # the configured path is a symbolic link to the real file (a synced or mounted configuration directory)
                 os.unlink(path)
